@@ -5,7 +5,7 @@ cases as Gallina expressions for coq/BrokerRun.v.
 A case (JSON-able):
   dict(name=<jbytes>, db=[[ident_j, None | [secret_j, [pub_j..] | None, [sub_j..] | None]]], async_=bool,
        events=[['C', q, nonce_j] | ['D', q, chunk_j] | ['E', q] | ['L', q] | ['R', q, 'row'|'none'|'raise', row?]
-               | ['PW', q] | ['RW', q] | ['T', n]])
+               | ['PW', q] | ['RW', q] | ['T', n] | ['S', ident_j, None | row]])   (S: the credential store's entry for ident is replaced / removed)
 """
 import asyncio
 import hashlib
@@ -185,6 +185,25 @@ class Driver:
     def apply(self, ev):
         k = ev[0]
         rec = dict(ev=ev, delivered=True, raised=None, errors_before=len(self.loop.errors), time_before=self.loop.time())
+        if k == 'S':
+            # the credential store changes between two callbacks (rotation of a secret, removal, other channel lists):
+            # a NEW row object, as a reload of the JSON / sqlite / memory store would produce
+            ident = tostr(unjbytes(ev[1]))
+            row = ev[2]
+            if row is None:
+                self.store.db.pop(ident, None)
+            else:
+                self.store.db[ident] = mkrow(ident, (unjbytes(row[0]), None if row[1] is None else [unjbytes(c) for c in row[1]],
+                                                     None if row[2] is None else [unjbytes(c) for c in row[2]]))
+            self._idle(rec, 0)
+            rec['loop_errors'] = len(self.loop.errors)
+            rec['state'] = self.show_state()
+            rec['asp'] = self.aspects()
+            rec['snap'] = self.snapshot()
+            rec['gauges'] = self.gauges()
+            rec['time'] = self.loop.time()
+            self.trace.append(rec)
+            return rec
         if ev[0] != 'T' and ev[1] in self.conns:
             rec['pending_before'] = len(self.store.pending.get(ev[1]) or [])
         q = ev[1] if k != 'T' else None
@@ -490,6 +509,8 @@ def coq_event(ev):
         return 'CResumePause %d' % ev[1]
     if k == 'T':
         return 'CTick %d' % ev[1]
+    if k == 'S':
+        return 'CStore %s (%s)' % (coq_bytes(unjbytes(ev[1])), coq_row(ev[2]))
     raise ValueError(ev)
 
 
@@ -712,6 +733,8 @@ def gen_history(rng, nconn=None, async_=False, profile='mixed', table=None, nops
         return gen_reauth_leave(rng, async_=async_)
     if scenario == 'reauth_stale':
         return gen_reauth_stale(rng, async_=async_)
+    if scenario == 'store_change':
+        return gen_store_change(rng)
     table = table if table is not None else rng.choice(DB_TABLES)
     nconn = nconn or rng.choice([2, 2, 3, 3, 4, 5])
     name = rng.choice(['hpfeeds', 'b', 'bröker'])
@@ -917,6 +940,80 @@ def gen_reauth_stale(rng, async_=False):
         def __init__(self, q):
             self.q, self.role = q, 'adversarial' if q == 0 else 'benign'
     return case, [R(0), R(1)]
+
+
+def gen_store_change(rng):
+    """directed history (synchronous store): identities authenticate and act, then the store's entry for one of them is
+    replaced (secret rotated, channel lists changed) or removed, and further connections present the OLD and the NEW
+    secret and use the old and the new permissions; connections authenticated before the change keep acting under the
+    row they authenticated with.  A listener holds the channels so that wrongly accepted requests become visible."""
+    table = dict(DB_TABLES[0])
+    name = rng.choice(['hpfeeds', 'b'])
+    nq = 5
+    nonces = [bytes(rng.randrange(256) for _ in range(4)) for _ in range(nq)]
+    who = rng.choice(['alice', 'bob', 'ali', 'carol'])
+    old = table[who]
+    kind = rng.choice(['rotate', 'rotate', 'remove', 'chans', 'rotate+chans'])
+    if kind == 'remove':
+        new = None
+    else:
+        secret = old[0] + '!' if 'rotate' in kind else old[0]
+        pub, sub = list(old[1]), list(old[2])
+        if 'chans' in kind:
+            pub = [c for c in ['x', 'y', 'z', 'X'] if rng.random() < 0.5]
+            sub = [c for c in ['x', 'y', 'z', 'X'] if rng.random() < 0.5]
+        new = (secret, pub, sub)
+    events = [['C', q, jbytes(nonces[q])] for q in range(nq)]
+    lst = rng.choice(['alice', 'bob'])                 # listener, never changed unless it is `who`
+    if lst == who:
+        lst = 'alice' if who != 'alice' else 'bob'
+
+    def auth(q, ident, secret):
+        return auth_frame(ident, digest(nonces[q], secret))
+
+    def ops(ident, row, n):
+        out = []
+        for _ in range(n):
+            c = rng.choice(['x', 'y', 'z', 'X'])
+            out.append(rng.choice([P.msgpublish(ident, c, gen_payload(rng)), P.msgsubscribe(ident, c), P.msgsubscribe(ident, c),
+                                   P.msgunsubscribe(ident, c)]))
+        return out
+    events.append(['D', 1, jbytes(auth(1, lst, table[lst][0]))])
+    for c in table[lst][2]:
+        events.append(['D', 1, jbytes(P.msgsubscribe(lst, c))])
+    # before the change: connection 0 authenticates as `who` with the current secret and acts where it may
+    events.append(['D', 0, jbytes(auth(0, who, old[0]))])
+    for c in rng.sample(old[2], rng.randint(0, len(old[2]))):
+        events.append(['D', 0, jbytes(P.msgsubscribe(who, c))])
+    for c in rng.sample(old[1], rng.randint(0, len(old[1]))):
+        events.append(['D', 0, jbytes(P.msgpublish(who, c, gen_payload(rng)))])
+    # the change
+    events.append(['S', jbytes(who.encode()), None if new is None else
+                   [jbytes(new[0].encode()), [jbytes(c.encode()) for c in new[1]], [jbytes(c.encode()) for c in new[2]]]])
+    # after it: old secret on 2, new secret (if any) on 3, connection 0 goes on under its old row, 4 = publisher for every channel
+    burst = rng.random() < 0.5
+    fr2 = [auth(2, who, old[0])] + ops(who, old, rng.randint(1, 3))
+    events += [['D', 2, jbytes(b''.join(fr2))]] if burst else [['D', 2, jbytes(f)] for f in fr2]
+    if new is not None:
+        fr3 = [auth(3, who, new[0])] + ops(who, new, rng.randint(1, 4))
+        events += [['D', 3, jbytes(b''.join(fr3))]] if rng.random() < 0.5 else [['D', 3, jbytes(f)] for f in fr3]
+    for f in ops(who, old, rng.randint(0, 2)):
+        events.append(['D', 0, jbytes(f)])
+    pubr = rng.choice(['alice', 'bob'] if who not in ('alice',) else ['bob', 'ALICE'])
+    if table.get(pubr) and pubr != who:
+        events.append(['D', 4, jbytes(auth(4, pubr, table[pubr][0]))])
+        for c in table[pubr][1]:
+            events.append(['D', 4, jbytes(P.msgpublish(pubr, c, gen_payload(rng)))])
+    if rng.random() < 0.3:
+        # and back again: the original entry is restored; the old secret works again on a fresh connection only
+        events.append(['S', jbytes(who.encode()), [jbytes(old[0].encode()), [jbytes(c.encode()) for c in old[1]],
+                                                   [jbytes(c.encode()) for c in old[2]]]])
+    case = dict(name=jbytes(name.encode()), db=jdb(table), async_=False, events=events)
+
+    class R:
+        def __init__(self, q):
+            self.q, self.role = q, 'adversarial' if q in (2, 3, 0) else 'benign'
+    return case, [R(q) for q in range(nq)]
 
 
 def gen_lookup(rng, table, q, ident=None):
